@@ -41,18 +41,24 @@ Fixpoint step_threads (ws : list fw) (sel : N -> bool) (e : ev) (ch : choice) : 
     else (s :: r', os, ok, pn)
   end.
 
+Definition wev_ev (we : wev) : ev := match we with WPacket e | WLocal _ e | WGlobal e => e end.
+
+(* which threads an event is handed to; an event in the wrong wrapper is handed to nobody *)
+Definition selected (T : N) (h : thread_fun) (we : wev) (k : N) : bool :=
+  match we with
+  | WPacket (EInterest _ i) => k =? h (i_name i)
+  | WPacket (EData _ d) => existsb (N.eqb k) (fst (dispatch_data T h d))
+  | WPacket _ => false
+  | WLocal j (ETick _) | WLocal j (ESweep _) => k =? j
+  | WLocal _ _ => false
+  | WGlobal (EInterest _ _) | WGlobal (EData _ _) | WGlobal (ETick _) | WGlobal (ESweep _) => false
+  | WGlobal _ => true
+  end.
+
 Definition wstep (T : N) (h : thread_fun) (ws : list fw) (we : wev) (ch : choice)
   : list fw * list (N * list out) * bool * bool :=
-  match we with
-  | WPacket (EInterest now i) => step_threads ws (fun k => k =? h (i_name i)) (EInterest now i) ch
-  | WPacket (EData now d) =>
-      let '(ths, pn) := dispatch_data T h d in
-      let '(ws', os, ok, pn') := step_threads ws (fun k => existsb (N.eqb k) ths) (EData now d) ch in
-      (ws', os, ok, pn || pn')
-  | WPacket e => (ws, [], true, false)
-  | WLocal k e => step_threads ws (fun j => j =? k) e ch
-  | WGlobal e => step_threads ws (fun _ => true) e ch
-  end.
+  let '(ws', os, ok, pn) := step_threads ws (selected T h we) (wev_ev we) ch in
+  (ws', os, ok, pn || match we with WPacket (EData _ d) => snd (dispatch_data T h d) | _ => false end).
 
 Definition set_thread (s : fw) (k T : N) : fw :=
   {| faces := faces s; fib := fib s; strat := strat s; regions := regions s; pit := pit s; cs := cs s; lru := lru s;
